@@ -302,30 +302,29 @@ def envAfterAnswers (env : ReqEnv) : List Remedy → ReqEnv
   | [] => env
   | r :: rs => envAfterAnswers (answerReq env r).2 rs
 
-/-- Status and body the FIRST caching remedy of a response leg sees (what it stores when its cache
-    is empty): earlier `ModifyResponseAction` answers have been written into the arguments. -/
-def storeAt (status : Int) (body : String) : List Remedy → Option (Int × String)
-  | [] => none
-  | .cache :: _ => some (status, body)
-  | r :: rs =>
-    match answerResp status r with
-    | .modResp _ b s => storeAt s b rs
-    | _ => storeAt status body rs
-
 /-- `a.EnsureResponseIsUpdated(&args)` on the header map of the arguments. -/
 def ensureRespHdrs (m : Hdrs) : RespAct → Hdrs
   | .modResp h2 _ _ => merge m h2
   | _ => m
 
-/-- The cache after a response leg over a response (status, body, header map `h0`): an empty cache
-    takes the response as the first caching remedy saw it; the stored header map IS the
-    arguments' map, so it ends up with every header edit of the leg. -/
+/-- The response as the FIRST caching remedy of a response leg sees it (what it stores when its
+    cache is empty): status, body and header map of the arguments, into which the earlier
+    `ModifyResponseAction` answers of the leg have been written.  The plugin stores a COPY of the
+    header map (F17b repaired): later edits of the leg do not reach the record. -/
+def storeAt (status : Int) (body : String) (h : Hdrs) : List Remedy → Option (Int × String × Hdrs)
+  | [] => none
+  | .cache :: _ => some (status, body, h)
+  | r :: rs =>
+    match answerResp status r with
+    | .modResp h2 b s => storeAt s b (merge h h2) rs
+    | _ => storeAt status body h rs
+
+/-- The cache after a response leg over a response (status, body, header map `h0`). -/
 def cacheAfterLeg (cache : Option (Int × String × Hdrs)) (status : Int) (body : String) (h0 : Hdrs)
     (rs : List Remedy) : Option (Int × String × Hdrs) :=
   match cache with
   | some c => some c
-  | none => (storeAt status body rs).map fun sb =>
-      (sb.1, sb.2, (scriptResp status rs).foldl ensureRespHdrs h0)
+  | none => storeAt status body h0 rs
 
 /-- `runOnRequest` (`env` = the request's header map and what the plugins cached in earlier
     transactions). -/
